@@ -51,6 +51,7 @@ def pktTok (p : Pkt) : String :=
   match p.seg with
   | .udp tag => "u/" ++ epTok p.src ++ "/" ++ epTok p.dst ++ "/" ++ toString tag
   | .tcp syn ack fin rst => "t/" ++ epTok p.src ++ "/" ++ epTok p.dst ++ "/" ++ flagsTok syn ack fin rst ++ "/0"
+  | .hsAck => "t/" ++ epTok p.src ++ "/" ++ epTok p.dst ++ "/A/0"
 
 def joinTok (xs : List String) (sep : String) : String :=
   if xs.isEmpty then "-" else sep.intercalate xs
